@@ -627,6 +627,9 @@ func c19HTTP(s *simkit.Sim, rc *simkit.RunCtx, sample *c19Sample) {
 	}
 	budget := 1 + s.D.Decide("mutated-exchanges", 2)
 	var tmu sync.Mutex
+	// discovery requests: the registration, or only the retraction that a deactivation sends later
+	phase := ""
+	retractionOnly := class == "discovery" && direction == "request" && s.D.Decide("discovery-target", 2) == 1
 	tampered := 0
 	chooser := func(l string, n int) int { return s.D.Decide("m "+l, n) }
 	mutateBody := func(body []byte, ct string) ([]byte, string) {
@@ -685,7 +688,18 @@ func c19HTTP(s *simkit.Sim, rc *simkit.RunCtx, sample *c19Sample) {
 		}
 	} else if direction == "request" {
 		w.HTTP.TamperRequest = func(req *http.Request, body []byte) []byte {
-			if classOf(req) != class || len(body) == 0 || !take() {
+			if classOf(req) != class || len(body) == 0 {
+				return body
+			}
+			if class == "discovery" && retractionOnly {
+				tmu.Lock()
+				ph := phase
+				tmu.Unlock()
+				if ph != "retract" {
+					return body
+				}
+			}
+			if !take() {
 				return body
 			}
 			m, d := mutateBody(body, req.Header.Get("Content-Type"))
@@ -869,6 +883,19 @@ func c19HTTP(s *simkit.Sim, rc *simkit.RunCtx, sample *c19Sample) {
 			return
 		}
 		s.Advance(30 * time.Second)
+		if class == "discovery" && (retractionOnly || s.D.Decide("deactivate", 2) == 1) {
+			// deactivation sends a retraction presentation to the server
+			tmu.Lock()
+			phase = "retract"
+			tmu.Unlock()
+			if !op("deactivate", func() {
+				code, body = cl.Call("DELETE", "/internal/discovery/v1/sim-svc/vendorB", nil)
+			}) {
+				return
+			}
+			sample.Answers = append(sample.Answers, fmt.Sprintf("deactivate: %d %s", code, trunc(string(body), 80)))
+			s.Advance(10 * time.Second)
+		}
 	}
 	// ---- afterwards the nodes still serve a valid request ----
 	w.HTTP.TamperRequest, w.HTTP.TamperResponse = nil, nil
